@@ -682,6 +682,128 @@ Lemma example_run :
              out st = [(0%nat, 0%Z); (1%nat, 10%Z); (1%nat, 11%Z); (0%nat, 3%Z)].
 Proof.
   intros evs. split.
-  - unfold evs, good_ev, quiet_decs. repeat (constructor; simpl; try (split; [reflexivity|])); ss; try discriminate; auto.
+  - unfold evs, good_ev. repeat (constructor; simpl; try (split; [reflexivity|])); ss; try discriminate; auto.
   - eexists. split; vm_compute; reflexivity.
+Qed.
+
+(* ================================================================== *)
+(* simulator backend: _next_results_to_fetch                             *)
+(* ================================================================== *)
+Definition sinv (t : tr) (pend : list rep) : Prop :=
+  base t <= length (log t) /\ cur t = em t ++ todo t /\ (proc t = ExitOk -> todo t = []) /\
+  Forall run_ok (past t) /\
+  match fin t with
+  | Live => mark t = NoMark /\ dcur t ++ pend ++ nrf t = em t
+  | Decided => pre_ok t /\ nrf t = [] /\ proc t <> Running
+  | DoneOk => mark t = NoMark /\ proc t = ExitOk /\ nrf t = [] /\ dcur t = cur t
+  | DoneFail => mark t = NoMark /\ proc t = ExitFail /\ nrf t = [] /\ pre_ok t
+  end.
+
+Lemma sinv_pend_irrel t p p' : fin t <> Live -> sinv t p -> sinv t p'.
+Proof. unfold sinv. destruct (fin t); intros N H; try exact H. congruence. Qed.
+
+Lemma app_is_firstn {A} (a b : list A) : a = firstn (length a) (a ++ b) /\ length a <= length (a ++ b).
+Proof.
+  split; [|rewrite app_length; lia].
+  rewrite firstn_app, Nat.sub_diag, firstn_all. simpl. symmetry. apply app_nil_r.
+Qed.
+
+Lemma s_live_pre_ok t p : sinv t p -> fin t = Live -> pre_ok t.
+Proof.
+  unfold sinv, pre_ok. intros (Hb & Hc & Hpt & Hpa & Hf) Hl. rewrite Hl in Hf. destruct Hf as (_ & Hd).
+  rewrite <- Hd. destruct (app_is_firstn (dcur t) (p ++ nrf t)). split; auto.
+Qed.
+
+Lemma sinv_write t new rest p :
+  sinv t [] -> proc t = Running -> todo t = new ++ rest -> (p = ExitOk -> rest = []) ->
+  sinv (t_write Sim new rest p t) [].
+Proof.
+  unfold sinv, t_write, pre_ok, em. destruct t as [lg td pr mk sn cs nr cu dc bs fn pa]; simpl.
+  intros (Hb & Hc & Hpt & Hpa & Hf) Hp Ht Hr. subst pr.
+  rewrite skipn_app_le by lia. rewrite app_length.
+  repeat split; try lia; auto.
+  - rewrite Hc, Ht, app_assoc. reflexivity.
+  - destruct fn.
+    + destruct Hf as (Hm & Hd). split; auto. simpl in *. rewrite <- Hd. rewrite <- !app_assoc. reflexivity.
+    + destruct Hf as (_ & _ & Hn). congruence.
+    + destruct Hf as (_ & Hn & _). congruence.
+    + destruct Hf as (_ & Hn & _). congruence.
+Qed.
+
+Lemma sinv_emit t k : sinv t [] -> sinv (t_emit Sim k t) [].
+Proof.
+  intros H. unfold t_emit. destruct (proc t) eqn:E; auto.
+  apply sinv_write; auto. apply firstn_skipn_todo. congruence.
+Qed.
+Lemma sinv_finish t : sinv t [] -> sinv (t_finish Sim t) [].
+Proof.
+  intros H. unfold t_finish. destruct (proc t) eqn:E; auto.
+  apply sinv_write; auto. symmetry; apply app_nil_r.
+Qed.
+Lemma sinv_fail t k : sinv t [] -> sinv (t_fail Sim k t) [].
+Proof.
+  intros H. unfold t_fail. destruct (proc t) eqn:E; auto.
+  apply sinv_write; auto. apply firstn_skipn_todo. congruence.
+Qed.
+
+Lemma sinv_new reps : sinv (new_trial reps) [].
+Proof. unfold sinv, new_trial, em; simpl. repeat split; auto; congruence. Qed.
+
+Lemma sinv_resume t reps : sinv t [] -> status_of t = Paused -> sinv (t_resume Sim reps t) [].
+Proof.
+  unfold sinv, status_of. intros (Hb & Hc & Hpt & Hpa & Hf) Hp.
+  assert (Hm : mark t = PauseMark) by (destruct (mark t); try discriminate; auto; destruct (proc t); discriminate).
+  assert (Hfin : fin t = Decided /\ pre_ok t /\ nrf t = []).
+  { destruct (fin t); try (destruct Hf as (Hm' & _); congruence). destruct Hf as (H1 & H2 & _). auto. }
+  destruct Hfin as (Hfd & Hpre & Hn).
+  unfold t_resume, em; simpl. rewrite Hm, Hn. rewrite skipn_all. simpl.
+  repeat split; auto; try congruence.
+  apply Forall_app; split; auto. constructor; [|constructor].
+  split; simpl; [apply is_prefix_cur; auto | rewrite Hfd; congruence].
+Qed.
+
+Lemma sinv_deliver t r p : sinv t (r :: p) -> fin t = Live -> sinv (t_deliver r t) p.
+Proof.
+  unfold sinv, t_deliver, em. destruct t as [lg td pr mk sn cs nr cu dc bs fn pa]; simpl.
+  intros (Hb & Hc & Hpt & Hpa & Hf) Hl. subst fn. destruct Hf as (Hm & Hd).
+  repeat split; auto. rewrite <- app_assoc. exact Hd.
+Qed.
+
+(* pause_trial / stop_trial of the simulator: window results are popped and counted *)
+Lemma sinv_pause t p p' late :
+  sinv t p -> fin t = Live -> sinv (set_fin Decided (t_pause Sim late t)) p'.
+Proof.
+  intros H Hl. pose proof (s_live_pre_ok _ _ H Hl) as Hpre. revert H Hpre.
+  unfold t_pause, drop_window, take_nrf, t_kill, t_write, set_fin, set_mark, set_cstat, sinv, pre_ok, em.
+  destruct t as [lg td pr mk sn cs nr cu dc bs fn pa]; simpl in *. subst fn.
+  intros (Hb & Hc & Hpt & Hpa & (Hm & Hd)) (Hpl & Hpd).
+  destruct pr; simpl; repeat split; auto; try congruence; try lia.
+  all: try (rewrite ?app_length; lia).
+  all: try (rewrite skipn_app_le by lia).
+  all: try (rewrite ?app_length; lia).
+  - rewrite Hc. rewrite <- app_assoc. f_equal. symmetry. apply firstn_skipn.
+  - rewrite firstn_app_le; auto.
+Qed.
+Lemma sinv_stop t p p' late :
+  sinv t p -> fin t = Live -> sinv (set_fin Decided (t_stop Sim late t)) p'.
+Proof.
+  intros H Hl. pose proof (s_live_pre_ok _ _ H Hl) as Hpre. revert H Hpre.
+  unfold t_stop, drop_window, take_nrf, t_kill, t_write, set_fin, set_mark, sinv, pre_ok, em.
+  destruct t as [lg td pr mk sn cs nr cu dc bs fn pa]; simpl in *. subst fn.
+  intros (Hb & Hc & Hpt & Hpa & (Hm & Hd)) (Hpl & Hpd).
+  destruct pr; simpl; repeat split; auto; try congruence; try lia.
+  all: try (rewrite ?app_length; lia).
+  all: try (rewrite skipn_app_le by lia).
+  all: try (rewrite ?app_length; lia).
+  - rewrite Hc. rewrite <- app_assoc. f_equal. symmetry. apply firstn_skipn.
+  - rewrite firstn_app_le; auto.
+Qed.
+Lemma sinv_stop_completed t p p' :
+  sinv t p -> fin t = Live -> nrf t = [] -> status_of t = Completed -> sinv (set_fin Decided t) p'.
+Proof.
+  intros H Hl Hn Hst. pose proof (s_live_pre_ok _ _ H Hl) as Hpre. revert H Hpre Hn Hst.
+  unfold set_fin, sinv, pre_ok, em, status_of.
+  destruct t as [lg td pr mk sn cs nr cu dc bs fn pa]; simpl in *. subst fn.
+  intros (Hb & Hc & Hpt & Hpa & (Hm & Hd)) (Hpl & Hpd) Hn Hst. subst mk.
+  destruct pr; try discriminate. repeat split; auto. discriminate.
 Qed.
